@@ -963,6 +963,25 @@ theorem gen_fromString_other_unpinned (d : Int) :
   refine ⟨rfl, rfl, ?_⟩
   rw [gen_isPinned]; by_cases h : d = 0 <;> simp [h]
 
+/-- the direct `types` cases (round 8 final): whatever today's regenerated tables answer for ANY text, status and depth, the short-cut
+test accepts exactly the requested mode (of the given status and of the parsed one) and the `type=` filter names that mode and survives
+`PinModeFromString` -/
+theorem gen_types_sound (text : String) (st : St) (d : Int) (o : TypesOut)
+    (h : typesT Gen.fromStringTable Gen.isPinnedTable Gen.toPinModeTable Gen.pinModeStringTable text st d = some o) :
+    o.pinnedStatus = decide (wantSt d = st) ∧ o.pinnedParsed = decide (wantSt d = o.parsed) ∧
+    o.pinType = (if d = 0 then "direct" else "recursive") ∧ o.roundTrip = o.pinType := by
+  unfold typesT at h
+  simp only [gen_isPinned, gen_pinType] at h
+  cases hf : fromStringT Gen.fromStringTable text with
+  | none => simp [hf] at h
+  | some p =>
+    simp only [hf] at h
+    cases h
+    exact ⟨rfl, rfl, rfl, rfl⟩
+
+example : typesT Gen.fromStringTable Gen.isPinnedTable Gen.toPinModeTable Gen.pinModeStringTable "direct" .recursive 0 =
+    some ⟨.direct, true, false, "direct", "direct"⟩ := by decide
+
 /-- every request of every conversation of the transcribed model is the one today's source builds -/
 theorem rebuildTrace_run (i : Input) : rebuildTrace Gen.reqSites genT i (run i).trace = (run i).trace :=
   ReqM.rebuildTrace_run i
